@@ -24,8 +24,12 @@
 #include <pthread.h>
 #include "w2c2_base.h"
 #include "wasi.h"
+/* observations go to a private duplicate of stdout: histories may close the WASI descriptors 0-2 */
+static FILE* obs;
+#define printf(...) fprintf(obs, __VA_ARGS__)
+#define OBS_FLUSH() fflush(obs)
 
-void trap(Trap t) { printf("{\"trap\":%d}\n", (int)t); fflush(stdout); _exit(3); }
+void trap(Trap t) { printf("{\"trap\":%d}\n", (int)t); OBS_FLUSH(); _exit(3); }
 static wasmMemory* mem;
 wasmMemory* wasiMemory(void* instance) { (void)instance; return mem; }
 extern char** environ;
@@ -94,7 +98,7 @@ static void report(const char* call, U32 err) {
             printf("\"]"); a = b;
         } else a++;
     }
-    printf("]}\n"); fflush(stdout);
+    printf("]}\n"); OBS_FLUSH();
 }
 static void ls_dir(const char* root, const char* rel, int depth, int* first) {
     char path[4096]; DIR* d; struct dirent* e;
@@ -107,7 +111,7 @@ static void ls_dir(const char* root, const char* rel, int depth, int* first) {
         snprintf(r, sizeof r, "%s%s%s", rel, rel[0] ? "/" : "", e->d_name);
         snprintf(p, sizeof p, "%s/%s", root, r);
         if (lstat(p, &st)) continue;
-        printf("%s{\"name\":\"%s\",\"type\":\"%s\",\"size\":%lld,\"ino\":%llu", *first ? "" : ",", r, S_ISDIR(st.st_mode) ? "dir" : S_ISLNK(st.st_mode) ? "link" : "file", (long long)st.st_size, (unsigned long long)st.st_ino);
+        printf("%s{\"name\":\"%s\",\"type\":\"%s\",\"size\":%lld,\"ino\":%llu", *first ? "" : ",", r, S_ISDIR(st.st_mode) ? "dir" : S_ISLNK(st.st_mode) ? "link" : S_ISREG(st.st_mode) ? "file" : "other", (long long)st.st_size, (unsigned long long)st.st_ino);
         *first = 0;
         if (S_ISREG(st.st_mode)) {
             FILE* f = fopen(p, "rb"); U8 buf[64]; size_t n, k; long long sz = (long long)st.st_size;
@@ -130,6 +134,8 @@ static U32 putpath(U32 at, const char* hex) { return (U32)unhex(hex, mem->data +
 int main(int argc, char** argv) {
     FILE* sc; char line[70000]; const char* sandbox; int ai, nargs = 0, nenv = 0; char* wargv[64]; char* wenv[64];
     if (argc < 3) return 2;
+    obs = fdopen(dup(1), "w");
+    if (!obs) return 2;
     sandbox = argv[1];
     for (ai = 3; ai < argc && strcmp(argv[ai], "--"); ai++) wargv[nargs++] = argv[ai];
     for (ai++; ai < argc; ai++) wenv[nenv++] = argv[ai];
@@ -149,7 +155,7 @@ int main(int argc, char** argv) {
         if (nt > 1) abi = tok[1][0];
         callno++;
         if (!strcmp(cmd, "ls")) {
-            int first = 1; printf("{\"i\":%d,\"call\":\"ls\",\"entries\":[", callno); ls_dir(sandbox, "", 0, &first); printf("]}\n"); fflush(stdout); continue;
+            int first = 1; printf("{\"i\":%d,\"call\":\"ls\",\"entries\":[", callno); ls_dir(sandbox, "", 0, &first); printf("]}\n"); OBS_FLUSH(); continue;
         }
         begin();
         if (!strcmp(cmd, "open")) {
@@ -195,9 +201,19 @@ int main(int argc, char** argv) {
             U32 l1 = putpath(PATH1, tok[3]); memcpy(before, mem->data, MEMSIZE);
             err = CALL(abi, path_filestat_get, (NULL, (U32)strtoul(tok[2], 0, 10), 0, PATH1, l1, STAT));
         } else if (!strcmp(cmd, "argsizes")) err = CALL(abi, args_sizes_get, (NULL, R1, R2));
-        else if (!strcmp(cmd, "args")) { memset(mem->data + BIG, 0xEE, 0x4000); memcpy(before, mem->data, MEMSIZE); err = CALL(abi, args_get, (NULL, BIG, BIG + 0x1000)); }
+        else if (!strcmp(cmd, "args")) {
+            /* args ABI [ptrs buf nptrbytes nbufbytes]: where the guest wants the pointer array and the strings (default BIG, BIG + 0x1000) */
+            U32 pa = nt > 5 ? (U32)strtoul(tok[2], 0, 10) : BIG, ba = nt > 5 ? (U32)strtoul(tok[3], 0, 10) : BIG + 0x1000;
+            if (nt > 5) { U32 np = (U32)strtoul(tok[4], 0, 10), nb = (U32)strtoul(tok[5], 0, 10); memset(mem->data + pa, 0xEE, np); memset(mem->data + ba, 0xEE, nb); }
+            else memset(mem->data + BIG, 0xEE, 0x4000);
+            memcpy(before, mem->data, MEMSIZE); err = CALL(abi, args_get, (NULL, pa, ba)); }
         else if (!strcmp(cmd, "envsizes")) err = CALL(abi, environ_sizes_get, (NULL, R1, R2));
-        else if (!strcmp(cmd, "env")) { memset(mem->data + BIG, 0xEE, 0x4000); memcpy(before, mem->data, MEMSIZE); err = CALL(abi, environ_get, (NULL, BIG, BIG + 0x1000)); }
+        else if (!strcmp(cmd, "env")) {
+            /* env ABI [ptrs buf nptrbytes nbufbytes]: where the guest wants the pointer array and the strings (default BIG, BIG + 0x1000) */
+            U32 pa = nt > 5 ? (U32)strtoul(tok[2], 0, 10) : BIG, ba = nt > 5 ? (U32)strtoul(tok[3], 0, 10) : BIG + 0x1000;
+            if (nt > 5) { U32 np = (U32)strtoul(tok[4], 0, 10), nb = (U32)strtoul(tok[5], 0, 10); memset(mem->data + pa, 0xEE, np); memset(mem->data + ba, 0xEE, nb); }
+            else memset(mem->data + BIG, 0xEE, 0x4000);
+            memcpy(before, mem->data, MEMSIZE); err = CALL(abi, environ_get, (NULL, pa, ba)); }
         else if (!strcmp(cmd, "clock")) {
             /* the same clock is read by this thread before and after the call: the WASI value must lie in between */
             struct timespec t0, t1; unsigned long wid = strtoul(tok[2], 0, 10);
@@ -219,13 +235,13 @@ int main(int argc, char** argv) {
             for (k = 0; k < n; k++) { e = CALL(abi, clock_time_get, (NULL, wid, strtoull(tok[3 + k], 0, 10), BIG + 8 * (U32)k)); if (e) bad = e; }
             printf("{\"i\":%d,\"call\":\"clockseq\",\"errno\":%u,\"ts\":[", callno, bad);
             for (k = 0; k < n; k++) printf("%s%llu", k ? "," : "", (unsigned long long)i64_load(mem, BIG + 8 * (U32)k));
-            printf("]}\n"); fflush(stdout);
+            printf("]}\n"); OBS_FLUSH();
             continue;
         } else if (!strcmp(cmd, "burn")) {
             /* a helper thread uses the given milliseconds of CPU: afterwards the process CPU clock is far ahead of this thread's */
             pthread_t th; long ms = strtol(tok[2], 0, 10);
             pthread_create(&th, NULL, burner, &ms); pthread_join(th, NULL);
-            printf("{\"i\":%d,\"call\":\"burn\",\"errno\":0,\"changed\":[]}\n", callno); fflush(stdout);
+            printf("{\"i\":%d,\"call\":\"burn\",\"errno\":0,\"changed\":[]}\n", callno); OBS_FLUSH();
             continue;
         } else if (!strcmp(cmd, "random")) {
             U32 len = (U32)strtoul(tok[2], 0, 10), fill = (U32)strtoul(tok[3], 0, 10); memset(mem->data + BIG - 64, (int)fill, len + 128);
@@ -234,9 +250,9 @@ int main(int argc, char** argv) {
             { U32 a, run = 0, maxrun = 0, outside = 0;
               for (a = 0; a < len; a++) { if (mem->data[BIG + a] == (U8)fill) { run++; if (run > maxrun) maxrun = run; } else run = 0; }
               for (a = 0; a < 64; a++) { if (mem->data[BIG - 64 + a] != (U8)fill) outside++; if (BIG + len + a < MEMSIZE && mem->data[BIG + len + a] != (U8)fill) outside++; }
-              printf("{\"i\":%d,\"call\":\"random\",\"errno\":%u,\"len\":%u,\"longest_unchanged_run\":%u,\"outside_changed\":%u}\n", callno, err, len, maxrun, outside); fflush(stdout); }
+              printf("{\"i\":%d,\"call\":\"random\",\"errno\":%u,\"len\":%u,\"longest_unchanged_run\":%u,\"outside_changed\":%u}\n", callno, err, len, maxrun, outside); OBS_FLUSH(); }
             continue;
-        } else if (!strcmp(cmd, "exit")) { fflush(stdout); CALL(abi, proc_exit, (NULL, (U32)strtoul(tok[2], 0, 10))); printf("{\"i\":%d,\"call\":\"exit\",\"returned\":true}\n", callno); continue; }
+        } else if (!strcmp(cmd, "exit")) { OBS_FLUSH(); CALL(abi, proc_exit, (NULL, (U32)strtoul(tok[2], 0, 10))); printf("{\"i\":%d,\"call\":\"exit\",\"returned\":true}\n", callno); continue; }
         else { printf("{\"i\":%d,\"unknown\":\"%s\"}\n", callno, cmd); continue; }
         report(cmd, err);
     }
